@@ -46,7 +46,31 @@ func (a *Analysis) mirrorProblems(ct *CodecType) (problems []string, pos string)
 			problems = append(problems, fmt.Sprintf("decode paths disagree at field %d: %s", i, d))
 		}
 	}
+	// a dynamic part is mirrored only if its table is unambiguous: two registrations of one key make the body type
+	// that is built depend on initialisation order
+	for _, f := range dec.Fields {
+		if f.Kind == "dyn" {
+			if dup := a.duplicateKeys(f.Table); dup != "" {
+				problems = append(problems, "discriminator table "+f.Table+" registers "+dup+" more than once: which body decodes depends on init order")
+			}
+		}
+	}
 	return
+}
+
+func (a *Analysis) duplicateKeys(table string) string {
+	t := a.tableByName(table)
+	if t == nil {
+		return ""
+	}
+	seen := map[string]bool{}
+	for _, r := range t.Regs {
+		if seen[r.Key] {
+			return "key " + r.Key
+		}
+		seen[r.Key] = true
+	}
+	return ""
 }
 
 // readerPrims: primitives (generic origins and all their instantiations) with their analysed paths.
@@ -289,6 +313,24 @@ func (a *Analysis) errorDiscipline(rep *Report, key string, fn *ssa.Function, pa
 			}
 		}
 		scan(p.Events, false)
+		// E2b: (*Buffer).Next hands back fewer bytes than asked for without any error: it must be dominated by an exact
+		// availability check of the same length
+		walkWithConds(p, func(x *Event, conds []Cond, _ []*Event) {
+			if x.Kind != EvBufOther || x.Mode != "Next" || len(x.Args) != 1 {
+				return
+			}
+			ok := false
+			for _, c := range conds {
+				if availabilityGuard(c, x.Args[0]) {
+					ok = true
+				}
+			}
+			if n, isC := x.Args[0].Int64(); isC && n == 0 {
+				ok = true
+			}
+			rep.Ob("E2-next-reports-nothing", key+":Next@"+siteKey(x), ok, a.P.Pos(x.Pos),
+				"buf.Next("+x.Args[0].Pretty()+") silently returns fewer bytes on a short buffer and no dominating check establishes that exactly that many bytes are available: a truncated message is accepted")
+		})
 		// E3: the number of elements a decoder reads is exactly the count on the wire (never clamped or adjusted)
 		walkEvents(p.Events, func(x *Event, _ int) {
 			if x.Kind != EvRep || !hasEvent([]*Path{{Events: []*Event{x}}}, func(y *Event) bool { return isRead(y) || (y.Kind == EvObj && y.Dir == "Decode") }) {
@@ -676,5 +718,115 @@ func (a *Analysis) condPos(c Cond, fallback *ssa.Function) string {
 	if c.Fn != nil && c.Fn.Pos().IsValid() {
 		return a.P.Pos(c.Fn.Pos())
 	}
+	if fallback == nil {
+		return "-"
+	}
 	return a.P.Pos(fallback.Pos())
+}
+
+// availabilityGuard: condition c, as taken, establishes n <= buf.Len() with both sides compared as plain ints
+// (no narrowing conversion anywhere in the comparison).
+func availabilityGuard(c Cond, n *Val) bool {
+	v := c.V
+	if v.Op != "binop" {
+		return false
+	}
+	narrowing := v.Contains(func(x *Val) bool {
+		return x.Op == "conv" && x.Name == "convert" && isIntegerType(x.Type) && len(x.Args) == 1 && x.Args[0].Type != nil && isIntegerType(x.Args[0].Type) && !wideningInt(x.Args[0].Type, x.Type)
+	})
+	if narrowing {
+		return false
+	}
+	for side := 0; side < 2; side++ {
+		o := stripCT(v.Args[side])
+		for o.Op == "conv" {
+			o = stripCT(o.Args[0])
+		}
+		if o.Op == "buflen" && condHolds([]Cond{c}, n, "<=", v.Args[side]) {
+			return true
+		}
+	}
+	return false
+}
+
+// spuriousRejections: error paths of a decoder that are not caused by a failed read, a failed nested Decode or an
+// unknown discriminator. The only legitimate such path is an exact availability check (n > buf.Len(), compared as
+// ints): anything else refuses bytes the encoder can produce.
+func (a *Analysis) spuriousRejections(paths []*Path) []string {
+	var out []string
+	seen := map[string]bool{}
+	guardOK := func(last Cond) bool {
+		if last.V.Op != "binop" {
+			return false
+		}
+		for side := 0; side < 2; side++ {
+			o := stripCT(last.V.Args[side])
+			for o.Op == "conv" {
+				o = stripCT(o.Args[0])
+			}
+			if o.Op != "buflen" {
+				continue
+			}
+			// the direction taken must mean: more is needed than the buffer holds
+			if availabilityGuard(Cond{V: last.V, Taken: !last.Taken}, last.V.Args[1-side]) {
+				return true
+			}
+		}
+		return false
+	}
+	// justified: the error of this alternative stems from a failed read / nested Decode, or from an exact availability check
+	var justified func(evs []*Event, conds []Cond) (bool, *Cond)
+	justified = func(evs []*Event, conds []Cond) (bool, *Cond) {
+		var lastEv *Event
+		for _, e := range evs {
+			if e.Failed {
+				return true, nil
+			}
+			if e.Kind == EvRep {
+				bad := false
+				for _, arm := range e.Iter {
+					walkEvents(arm.Events, func(x *Event, _ int) {
+						if x.Failed {
+							bad = true
+						}
+					})
+				}
+				if bad {
+					return true, nil
+				}
+			}
+			if countsAsWire(e) || e.Kind == EvAlt {
+				lastEv = e
+			}
+		}
+		if lastEv != nil && lastEv.Kind == EvAlt {
+			for _, arm := range lastEv.Iter {
+				if ok, c := justified(arm.Events, arm.Conds); !ok {
+					return false, c
+				}
+			}
+			return true, nil
+		}
+		if len(conds) == 0 {
+			return true, nil // nothing decided this error: not a data-dependent rejection the rule can name
+		}
+		last := conds[len(conds)-1]
+		if guardOK(last) {
+			return true, nil
+		}
+		return false, &last
+	}
+	for _, p := range paths {
+		if pathKind(p) != "err" || a.tableMiss(p) {
+			continue
+		}
+		if ok, c := justified(p.Events, p.Conds); !ok && c != nil {
+			k := c.String()
+			if !seen[k] {
+				seen[k] = true
+				out = append(out, fmt.Sprintf("%s at %s", k, a.condPos(*c, nil)))
+			}
+		}
+	}
+	return out
 }
